@@ -5,6 +5,7 @@
 package c15
 
 import (
+	gocontext "context"
 	"encoding/json"
 	"errors"
 	"fmt"
@@ -32,9 +33,14 @@ var assumptions = []string{
 
 func TestMain(m *testing.M) { evid.Main(m, "C15", rule, assumptions) }
 
-// H is a handler program: ops "s<code>", "b", "n", "p:<kind>", "inj".
+// H is a handler program: ops "s<code>", "b", "n", "c" (cancel the request
+// context), "p:<kind>", "inj".
 type H struct {
 	Ops []string `json:"ops"`
+	// Shape: "" = func(Context); "http" = func(http.ResponseWriter, *http.Request);
+	// "handlerfunc" = http.HandlerFunc (both are wrapped by the built-in fast
+	// invoker and cannot call Next).
+	Shape string `json:"shape,omitempty"`
 }
 
 type Case struct {
@@ -113,13 +119,14 @@ func panicToken(kind string) string {
 // ---- interpreter of the handlers after Recovery --------------------------------
 
 type sim struct {
-	hs       []H
-	cursor   int
-	status   int
-	body     string
-	panicked string // kind of the panic that reached Recovery ("" = none)
-	nested   bool
-	depth    int
+	hs        []H
+	cancelled bool
+	cursor    int
+	status    int
+	body      string
+	panicked  string // kind of the panic that reached Recovery ("" = none)
+	nested    bool
+	depth     int
 }
 
 type simPanic struct{ kind string }
@@ -133,6 +140,9 @@ func (m *sim) write(code int, s string) {
 
 func (m *sim) run() {
 	for m.cursor < len(m.hs) {
+		if m.cancelled {
+			return
+		}
 		i := m.cursor
 		m.cursor++
 		for _, op := range m.hs[i].Ops {
@@ -147,6 +157,8 @@ func (m *sim) run() {
 				m.depth++
 				m.run()
 				m.depth--
+			case op == "c":
+				m.cancelled = true
 			case strings.HasPrefix(op, "p:"):
 				if m.depth > 0 {
 					m.nested = true
@@ -183,8 +195,9 @@ func simulate(hs []H) (m *sim) {
 // ---- the application ---------------------------------------------------------------
 
 type app struct {
-	f   *flamego.Flame
-	log []string
+	f      *flamego.Flame
+	log    []string
+	cancel func()
 }
 
 func build(c Case) *app {
@@ -206,21 +219,34 @@ func build(c Case) *app {
 				needsInj = true
 			}
 		}
-		body := func(ctx flamego.Context) {
+		run := func(ctx flamego.Context, w http.ResponseWriter) {
 			for _, op := range h.Ops {
 				switch {
 				case op[0] == 's':
 					var code int
 					fmt.Sscanf(op[1:], "%d", &code)
-					ctx.ResponseWriter().WriteHeader(code)
+					w.WriteHeader(code)
 				case op == "b":
-					_, _ = ctx.ResponseWriter().Write([]byte(fmt.Sprintf("h%d;", i)))
+					_, _ = w.Write([]byte(fmt.Sprintf("h%d;", i)))
 				case op == "n":
 					ctx.Next()
+				case op == "c":
+					if a.cancel != nil {
+						a.cancel()
+					}
 				case strings.HasPrefix(op, "p:"):
 					raise(op[2:])
 				}
 			}
+		}
+		body := func(ctx flamego.Context) { run(ctx, ctx.ResponseWriter()) }
+		switch h.Shape {
+		case "http":
+			hs = append(hs, func(w http.ResponseWriter, r *http.Request) { run(nil, w) })
+			continue
+		case "handlerfunc":
+			hs = append(hs, http.HandlerFunc(func(w http.ResponseWriter, r *http.Request) { run(nil, w) }))
+			continue
 		}
 		if needsInj {
 			// the dependency cannot be resolved: the body must not run at all,
@@ -265,9 +291,14 @@ type resp struct {
 
 func serve(a *app, path string) (r resp) {
 	spy := rt.NewSpy()
+	req := rt.NewRequest("GET", path, nil)
+	ctx, cancel := gocontext.WithCancel(gocontext.Background())
+	defer cancel()
+	a.cancel = cancel
+	req = req.WithContext(ctx)
 	func() {
 		defer func() { r.escaped = recover() }()
-		a.f.ServeHTTP(spy, rt.NewRequest("GET", path, nil))
+		a.f.ServeHTTP(spy, req)
 	}()
 	r.status = spy.Status()
 	r.body = string(spy.Body)
@@ -383,6 +414,10 @@ func checkCase(c Case) (out evid.Outcome) {
 			out.NonTrivial = true
 			out.Classes = append(out.Classes, "kind:"+want.panicked)
 		}
+		if want.cancelled {
+			out.NonTrivial = true
+			out.Classes = append(out.Classes, "panic-with-cancelled-context")
+		}
 	}
 	out.Classes = append(out.Classes, "env:"+c.Env, "at:"+c.RecoveryAt)
 	return out
@@ -429,8 +464,13 @@ func genCase(t *rapid.T) Case {
 	n := rapid.IntRange(1, 3).Draw(t, "nafter")
 	for i := 0; i < n; i++ {
 		var h H
+		h.Shape = []string{"", "", "", "http", "handlerfunc"}[rapid.IntRange(0, 4).Draw(t, "shape")]
 		for j, k := 0, rapid.IntRange(0, 4).Draw(t, "nops"); j < k; j++ {
-			switch w := rapid.IntRange(0, 11).Draw(t, "op"); {
+			switch w := rapid.IntRange(0, 12).Draw(t, "op"); {
+			case w == 12:
+				h.Ops = append(h.Ops, "c")
+			case w < 3 && h.Shape != "":
+				h.Ops = append(h.Ops, "b") // the net/http shapes cannot call Next
 			case w < 3:
 				h.Ops = append(h.Ops, "n")
 			case w < 5:
@@ -440,7 +480,9 @@ func genCase(t *rapid.T) Case {
 			case w < 11:
 				h.Ops = append(h.Ops, "p:"+kinds[rapid.IntRange(0, len(kinds)-1).Draw(t, "kind")])
 			default:
-				h.Ops = append(h.Ops, "inj")
+				if h.Shape == "" {
+					h.Ops = append(h.Ops, "inj")
+				}
 			}
 		}
 		c.After = append(c.After, h)
